@@ -438,12 +438,19 @@ def c09(run, tier):
     run.judge_trace(trace, "Trace_Store", "xml-trees", "C09.store", timeout=3000)
 
 
+def c19(run, tier):
+    cfg = run.cfg("MC_Unmarshal.cfg", {}, "gen.cfg")
+    rep = run.tlc_gen_replay("MC_Unmarshal", cfg, "calls", timeout=600)
+    run.absorb(rep, VALUE_ASPECTS)
+    # sub-queries of field tags from every start node are also covered by C18; sessions mix Exec and Unmarshal in C13
+
+
 def adapter_replay(run, path):
     import json, os, subprocess
     rc = json.load(open(path))
     run.build_harness()
     fam = rc.get("fam", "")
-    if fam in ("C16.json", "C09.xml"):
+    if fam in ("C16.json", "C09.xml", "C19.unmarshal"):
         p = subprocess.run([run.harness, "replay-one", path], env=run.env)
         if p.returncode == 1:
             print("VIOLATION property=%s replay=%s" % (run.pid, path))
@@ -547,6 +554,14 @@ PROPS = {
             "exhaustive": {"quick": True, "thorough": True},
             "assumptions": BASE_ASSUME + ["8-bit encodings are exercised only on code points where IANA and WHATWG tables agree (0x00-0x7F, 0xA0-0xFF); other characters are written as character references",
                                           "CR and attribute-value TAB/LF are generated only as character references (normalisation is the decoder's business)"]},
+    "C19": {"run": c19, "replay": adapter_replay,
+            "rule": "TLC enumerates 35 target types (structs with string/bool/int*/uint*/float fields, pointer and pointer-to-pointer fields, slice fields of primitives / pointers / structs, nested structs by value and by pointer, "
+            "untagged fields, an unexported tagged field, map/array/chan/interface/func fields, multi-dimensional slices; slice targets of primitives, pointers, structs; bare primitives and unsupported kinds) x 4 ways of passing the target "
+            "(pointer, non-pointer, nil pointer, nil) x 7 query results (one node, two nodes, empty, many, number, string, boolean) = 980 calls; Laws (only a non-nil pointer to a struct/slice can succeed; a struct needs exactly one node; "
+            "one slice element per node) are checked on the specification; the harness builds each type with reflect.StructOf/PointerTo/SliceOf, pre-fills untagged fields with sentinels (also in nested structs), calls xsel.Unmarshal under recover "
+            "and compares the projected target with the specification's filled value", "exhaustive": {"quick": True, "thorough": True},
+            "assumptions": BASE_ASSUME + ["numeric field values are only judged when exactly representable in the field type (conversion of NaN / out-of-range numbers is not constrained)",
+                                          "unexported tagged fields are exercised through one statically declared type (reflect.StructOf cannot create them)"]},
     "C01": {
         "run": c01,
         "rule": "TLC enumerates every document the Store machine can build within the node bound (all kinds, names a/b x {no namespace,U1}), "
